@@ -13,7 +13,7 @@ use ark_serialize::CanonicalSerialize;
 /// e_blinding, LE64(|L|), L.., LE64(|R|), R.., a, b
 pub fn layout_check<G: ark_ec::AffineRepr + 'static>(shape: &Shape, seed: u64) -> (bool, String) {
     let pad = shape.padded();
-    let pc = PedersenGens::<G>::default();
+    let pc = pc_for::<G>(&shape.name, seed);
     let bp = BulletproofGens::<G>::new(pad, 1);
     let shr = new_shared::<G>(shape, &Default::default(), Box::new(PlainVals::<FOf<G>>::new(Default::default(), seed)));
     let (proof, _) = prove_shape(shape, &shr, &pc, &bp, seed);
